@@ -29,10 +29,11 @@ Trusted base of the unit beyond lib/bigstub.rs, lib/ratio_types.rs, lib/ratio2_s
 VERUS = {
     'ratio_farey': {'file': 'ratio_farey.rs', 'w32': False},
     'float_error_bounds': {'file': 'float_error_bounds.rs', 'w32': False},
+    'ratio_simplest': {'file': 'ratio_simplest.rs', 'w32': False},
 }
 
 PROP_UNITS = {
-    'C18': {'verus': ['ratio_farey', 'float_error_bounds'],
+    'C18': {'verus': ['ratio_farey', 'float_error_bounds', 'ratio_simplest'],
             'undecided': ['next_up / next_down of an integer with limit == 1: excluded from the contract (debug-build '
                           'assertion failure in farey_neighbors, release result correct)']},
 }
